@@ -784,6 +784,11 @@ impl<E: Effect> Executor<E> {
         heap: Vec<Vec<u8>>,
         answers_query: bool,
     ) -> Result<(), Error> {
+        // A terminated awaiter has no use for the result (and would pin its storage).
+        if self.get_process(awaiter).is_some_and(|p| p.is_terminated()) {
+            return Ok(());
+        }
+
         // Inject heap data into the result value
         let injected_result = self.inject_heap_data(result, &heap)?;
 
@@ -826,7 +831,9 @@ impl<E: Effect> Executor<E> {
         error: Error,
         answers_query: bool,
     ) {
-        if let Some(process) = self.get_process_mut(awaiter) {
+        if let Some(process) = self.get_process_mut(awaiter)
+            && !process.is_terminated()
+        {
             if answers_query {
                 process.await_unanswered.remove(&awaited);
             }
@@ -895,6 +902,12 @@ impl<E: Effect> Executor<E> {
         message: Value,
         heap: Vec<Vec<u8>>,
     ) -> Result<(), Error> {
+        // Nobody will ever read the mail of a terminated process: drop it instead of pinning
+        // its storage for the life of the worker.
+        if self.get_process(id).is_some_and(|p| p.is_terminated()) {
+            return Ok(());
+        }
+
         // Inject heap data into the message value
         let injected_message = self.inject_heap_data(message, &heap)?;
 
@@ -912,6 +925,40 @@ impl<E: Effect> Executor<E> {
         }
 
         Ok(())
+    }
+
+    /// Release everything a terminated process still holds except its result, which awaiters can
+    /// still observe: operand stack, locals, unread mail, an unfinished select (its sources and
+    /// the message a filter was looking at) and the results it had awaited. None of it can be
+    /// reached by any program any more.
+    fn discard_terminated_state(&mut self, pid: ProcessId) {
+        let Some(process) = self.get_process_mut(pid) else {
+            return;
+        };
+        if !process.is_terminated() {
+            return;
+        }
+        let stack = std::mem::take(&mut process.stack);
+        let locals = std::mem::take(&mut process.locals);
+        let mailbox = std::mem::take(&mut process.mailbox);
+        let select_state = process.select_state.take();
+        let awaiting = std::mem::take(&mut process.awaiting);
+        process.await_failures.clear();
+        process.await_unanswered.clear();
+        for value in stack.iter().chain(locals.iter()).chain(mailbox.iter()) {
+            self.release(value);
+        }
+        if let Some(select_state) = select_state {
+            for source in &select_state.sources {
+                self.release(source);
+            }
+            if let Some((_, message)) = &select_state.receiving {
+                self.release(message);
+            }
+        }
+        for value in awaiting.values().flatten() {
+            self.release(value);
+        }
     }
 
     pub fn mark_spawning(&mut self, id: ProcessId) {
@@ -1348,6 +1395,9 @@ impl<E: Effect> Executor<E> {
                     }
                 }
             }
+
+            // What the process still held, other than its result, is garbage now.
+            self.discard_terminated_state(current_pid);
 
             // Validate the refcount invariant at this quiescent point (debug only) — the
             // worker/concurrency-path counterpart of the check in `execute_bytecode_sync`. This
